@@ -448,6 +448,7 @@ func registerRegexp(e *Engine) {
 				return c.Outcomes(c.sol2(), []Outcome{{Cond: ok, Ret: Iface{}}, {Cond: Not(ok), Ret: errv}})
 			}
 			out := FreshVar("exec.out", SString, 0)
+			c.St.Assume(intCmp("<=", StrLenInt(out), IntC(ExecOutMax)))
 			c.St.Nondets = append(c.St.Nondets, NondetRec{Tag: "exec.out", Kind: "string", Term: out})
 			return c.Outcomes(c.sol2(), []Outcome{{Cond: ok, Ret: Tuple{Bytes{S: out}, Iface{}}}, {Cond: Not(ok), Ret: Tuple{Slice{}, errv}}})
 		}
